@@ -48,6 +48,8 @@ def make_spec(run_seed, tier, prop, choice_weights=None, forced_prob=0.0, branch
         "cap_mass": rnd.choice([300, 600, 1200]),
         "forced": None,
     }
+    if text.startswith("{[]") and text.count("{") == 1 and text.rstrip().endswith("|") and "[]}" in text and rnd.random() < 0.35:
+        spec["entry"] = "stochastic"  # the same string through the user-facing Stochastic class
     if "hub" in tags:
         spec["cap_mass"] = min(spec["cap_mass"], 400)  # branched growth caps every open branch after every step: O(n^2) attaches
     if rnd.random() < forced_prob:
@@ -104,7 +106,8 @@ def execute(spec, props=None):
             forced_values = list(forced["values"])
         else:
             # two passes: the first records the masses a_k - a_0 of the natural run, the second forces the tie
-            out1 = genrun.run_molecule(text, sched, props=(), embed="stub", cap_mass=spec.get("cap_mass"), wall=60, ast=ast)
+            out1 = genrun.run_molecule(text, sched, props=(), embed="stub", cap_mass=spec.get("cap_mass"), wall=60, ast=ast,
+                                       entry=spec.get("entry", "molecule"))
             if out1.harness_error:
                 return {"harness_error": out1.harness_error, "violations": []}
             recs = getattr(out1.audit, "stop_records", None)
@@ -133,7 +136,7 @@ def execute(spec, props=None):
             resolved["forced"] = {"mode": "values", "values": forced_values}
             resolved["sched"]["script"] = sched.get("script")
     out = genrun.run_molecule(text, sched, props=props, embed=spec.get("embed", "stub"), forced_draws=forced_values,
-                              cap_mass=spec.get("cap_mass"), wall=90, ast=ast)
+                              cap_mass=spec.get("cap_mass"), wall=90, ast=ast, entry=spec.get("entry", "molecule"))
     if out.harness_error:
         return {"harness_error": out.harness_error, "violations": []}
     if isinstance(out.exc, WallTimeout):
@@ -174,6 +177,7 @@ def execute(spec, props=None):
         "drawpolicy:" + spec["sched"]["draw_policy"]: 1,
         "embed:" + spec.get("embed", "stub"): 1,
         "draw:" + ("forced" if forced_values is not None else "real"): 1,
+        "entry:" + spec.get("entry", "molecule"): 1,
     })
     for t in spec.get("tags", []):
         if t.startswith(("arch:", "family:", "start:", "end:", "weights:")) or t in ("corpus", "hub", "connector"):
